@@ -81,6 +81,8 @@ def struct_eq(a, b, memo=None, ignore_attrs=('_valid', '_parsable')):
     key = (id(a), id(b))
     if key in memo:
         return True
+    if isinstance(a, (float, bytes)) or isinstance(b, (float, bytes)):
+        return type(a) is type(b) and a == b
     if isinstance(a, PObj) and isinstance(b, PObj):
         if a.cls in IMMUTABLE_CLASSES or b.cls in IMMUTABLE_CLASSES:
             return a is b
